@@ -18,14 +18,21 @@
 #define SH_BITS 16
 typedef struct { uintptr_t key; unsigned short fib; unsigned char shared; } ShEnt;
 static ShEnt g_sh[1 << SH_BITS];
-void tsan_shared_reset(void) { __builtin_memset(g_sh, 0, sizeof g_sh); }
+static unsigned char g_page_budget[1 << 14];
+extern uint64_t g_accesses_preempted;
+void tsan_shared_reset(void) { __builtin_memset(g_sh, 0, sizeof g_sh); __builtin_memset(g_page_budget, 0, sizeof g_page_budget); }
 static inline void shared_access(void *a)
 {
     uintptr_t key = (uintptr_t)a >> 3;
     ShEnt *e = &g_sh[(key * 0x9E3779B97F4A7C15ULL) >> (64 - SH_BITS)];
     if (e->key != key) { e->key = key; e->fib = (unsigned short)g_cur_fiber_id; e->shared = 0; return; }
     if (e->fib != (unsigned short)g_cur_fiber_id) { e->fib = (unsigned short)g_cur_fiber_id; e->shared = 1; }
-    if (e->shared) simomp_preempt_now();
+    if (e->shared) {
+        /* per-page budget: rows of DP state that are legitimately handed from task to task would otherwise
+           absorb all preemptions; a few per 4 kB page leave room for the rare shared scalars */
+        unsigned char *b = &g_page_budget[((uintptr_t)a >> 12) * 0x9E3779B97F4A7C15ULL >> (64 - 14)];
+        if (*b < 6) { uint64_t before = g_accesses_preempted; simomp_preempt_now(); if (g_accesses_preempted != before) (*b)++; }
+    }
 }
 #define ACC(name) void name(void *a) { HIT(); if (W.p_shared) shared_access(a); }
 
